@@ -11,7 +11,8 @@
 (*                               binary exponent: 2^53 is [1, 1, 53].        *)
 (*   [k |-> "sum", x, y]         the exact sum of two "num"s whose exponents *)
 (*                               are too far apart to align in 32 bits       *)
-(*                               (only ever a *result*, never an operand)    *)
+(*                               (only ever a *result*, never an operand);   *)
+(*                               x is the term with the larger exponent      *)
 (*   [k |-> "str", s]            a byte string (JqUtil bytes)                *)
 (*   [k |-> "bool", b]  [k |-> "null"]  [k |-> "unset"]                      *)
 (*   [k |-> "arr", len]  [k |-> "obj", len]   (operators see only the kind)  *)
@@ -67,7 +68,7 @@ Num(n, d, e) ==
            b == StripD(a[1], a[2], a[3])
            g == Gcd(b[1], b[2])
        IN [k |-> "num", n |-> sg * (b[1] \div g), d |-> b[2] \div g, e |-> b[3], nz |-> FALSE]
-Int(i) == Num(i, 1, 0)
+I(i) == Num(i, 1, 0)
 IsZero(x) == x.n = 0
 IsNeg(x) == x.n < 0 \/ x.nz        \* the IEEE sign bit
 Neg(x) == IF x.n = 0 THEN [x EXCEPT !.nz = ~x.nz] ELSE [x EXCEPT !.n = -x.n]
@@ -80,7 +81,7 @@ Add(x, y) ==
   ELSE IF IsZero(x) THEN y
   ELSE IF IsZero(y) THEN x
   ELSE LET e0 == IF x.e < y.e THEN x.e ELSE y.e IN
-       IF x.e - e0 > MaxShift \/ y.e - e0 > MaxShift THEN [k |-> "sum", x |-> x, y |-> y]
+       IF x.e - e0 > MaxShift \/ y.e - e0 > MaxShift THEN (IF x.e > y.e THEN [k |-> "sum", x |-> x, y |-> y] ELSE [k |-> "sum", x |-> y, y |-> x])
        ELSE Num(x.n * Pow(2, x.e - e0) * y.d + y.n * Pow(2, y.e - e0) * x.d, x.d * y.d, e0)
 Sub(x, y) == Add(x, Neg(y))
 Mul(x, y) ==
@@ -91,10 +92,10 @@ Div(x, y) ==
   IF IsZero(x) THEN (IF IsNeg(x) # IsNeg(y) THEN NegZero ELSE Zero)
   ELSE Num((IF y.n < 0 THEN -1 ELSE 1) * x.n * y.d, x.d * Abs(y.n), x.e - y.e)
 
-\* sign of a num or a sum (-1, 0, 1); in a sum the term with the larger
-\* exponent dominates (gap > MaxShift bits, mantissas below 2^6)
+\* sign of a num or a sum (-1, 0, 1); in a sum the first term has the larger
+\* exponent and dominates (gap > MaxShift bits, mantissas below 2^6)
 SignOf(x) ==
-  IF x.k = "sum" THEN (IF x.x.e > x.y.e THEN (IF x.x.n < 0 THEN -1 ELSE 1) ELSE (IF x.y.n < 0 THEN -1 ELSE 1))
+  IF x.k = "sum" THEN (IF x.x.n < 0 THEN -1 ELSE 1)
   ELSE IF x.n < 0 THEN -1 ELSE IF x.n > 0 THEN 1 ELSE 0
 NumCmp(x, y) == SignOf(Sub(x, y))
 
@@ -102,23 +103,27 @@ NumCmp(x, y) == SignOf(Sub(x, y))
 Trunc(x) ==
   IF IsZero(x) THEN Zero
   ELSE IF x.d = 1 /\ x.e >= 0 THEN x
-  ELSE IF x.e >= 0 THEN Int((IF x.n < 0 THEN -1 ELSE 1) * ((Abs(x.n) * Pow(2, x.e)) \div x.d))
+  ELSE IF x.e >= 0 THEN I((IF x.n < 0 THEN -1 ELSE 1) * ((Abs(x.n) * Pow(2, x.e)) \div x.d))
   ELSE IF -x.e > 24 THEN Zero
-  ELSE Int((IF x.n < 0 THEN -1 ELSE 1) * (Abs(x.n) \div (x.d * Pow(2, -x.e))))
+  ELSE I((IF x.n < 0 THEN -1 ELSE 1) * (Abs(x.n) \div (x.d * Pow(2, -x.e))))
 
 RECURSIVE PowMod(_, _, _)
 PowMod(b, k, m) == IF k = 0 THEN 1 % m ELSE (b * PowMod(b, k - 1, m)) % m
 Small(x) == x.e <= 24
 IntOf(x) == x.n * Pow(2, x.e)        \* an integer-valued Small num as a TLC integer
-\* remainder of integer-valued x by integer-valued y # 0, sign of the dividend
+\* remainder of integer-valued x by integer-valued y # 0 (both n * 2^e, e >= 0), sign of the
+\* dividend.  Both are scaled down by 2^em; then one of them is an odd integer below 2^6.
 Rem(x, y) ==
-  LET sg == IF x.n < 0 THEN -1 ELSE 1 IN
-  IF IsZero(x) THEN Zero
-  ELSE IF Small(x) /\ Small(y) THEN Int(sg * (Abs(IntOf(x)) % Abs(IntOf(y))))
-  ELSE IF Small(y) THEN LET m == Abs(IntOf(y)) IN Int(sg * (((Abs(x.n) % m) * PowMod(2, x.e, m)) % m))
-  ELSE IF Small(x) THEN x
-  ELSE IF Abs(x.n) = Abs(y.n) /\ x.e = y.e THEN Zero
-  ELSE [k |-> "undefined"]         \* two different huge operands: outside the model
+  LET sg == IF x.n < 0 THEN -1 ELSE 1
+      em == IF x.e < y.e THEN x.e ELSE y.e
+      ex == x.e - em
+      ey == y.e - em
+  IN IF IsZero(x) THEN Zero
+     ELSE IF ey <= 8 THEN LET m == Abs(y.n) * Pow(2, ey)
+                          IN Num(sg * (((Abs(x.n) % m) * PowMod(2, ex, m)) % m), 1, em)
+     ELSE x                           \* ex = 0 and |x| < 2^6 * 2^em < |y|
+\* |x| >= 2^63: outside the range of a 64-bit integer (x integer-valued)
+Beyond63(x) == ~IsZero(x) /\ x.e >= 58 /\ (x.e - 58 > 5 \/ Abs(x.n) * Pow(2, x.e - 58) >= 32)
 
 \* ----- decimal text of a dyadic number (d = 1), the `strconv 'f', -1` form.
 \* Little-endian digit sequences so that 2^53 and 5^20 need no big integers.
@@ -189,7 +194,7 @@ Truthy(v) ==
     [] OTHER -> FALSE                          \* null, unset, regex
 NumOf(v) ==
   CASE v.k = "num" -> v
-    [] v.k = "bool" -> IF v.b THEN Int(1) ELSE Zero
+    [] v.k = "bool" -> IF v.b THEN I(1) ELSE Zero
     [] v.k = "str" -> LET p == ParseNum(v.s) IN IF p.ok THEN p.v ELSE Zero
     [] OTHER -> Zero
 StrOf(v) ==
@@ -210,7 +215,7 @@ UnOp(op, v) ==
 \* ++x --x x++ x--: the value of the expression and the value stored in x
 IncDec(op, prefix, v) ==
   LET old == NumOf(v)
-      new == IF op = "++" THEN Add(old, Int(1)) ELSE Sub(old, Int(1))
+      new == IF op = "++" THEN Add(old, I(1)) ELSE Sub(old, I(1))
   IN [value |-> IF prefix THEN new ELSE old, stored |-> new]
 
 \* ---------------------------------------------------------- 3.3 arithmetic
@@ -340,7 +345,7 @@ Join(ps, sep) == IF ps = <<>> THEN <<>> ELSE IF Len(ps) = 1 THEN ps[1] ELSE ps[1
 IsInteger(x) == IsZero(x) \/ (x.d = 1 /\ x.e >= 0)
 Floor(x) ==
   IF IsInteger(x) THEN (IF IsZero(x) THEN Zero ELSE x)
-  ELSE LET t == Trunc(x) IN IF x.n < 0 THEN Sub(t, Int(1)) ELSE t
+  ELSE LET t == Trunc(x) IN IF x.n < 0 THEN Sub(t, I(1)) ELSE t
 Ceil(x) == LET f == Floor(Neg(x)) IN IF IsZero(f) THEN Zero ELSE Neg(f)
 \* nearest integer, halves away from zero: sign(x) * floor(|x| + 1/2)
 Round(x) ==
